@@ -25,6 +25,7 @@ func VerifH_C13_foreach_items() {
 	n := verifrt.Choice("n", verifrt.Param("maxN", 3)+1)
 	sub := &vSub{gate: make(chan struct{})}
 	h := newHandler()
+	h.schemas = verifSchemas(sub)
 	r, err := (&runnableStep{workflow: sub, logger: vLogger{}}).Start(nil, "loop", h)
 	verifrt.Assert(err == nil, "Start succeeds")
 	items := make([]any, n)
@@ -120,6 +121,7 @@ func VerifH_C12_foreach_close_anytime() {
 	sub := &vSub{gate: make(chan struct{})}
 	close(sub.gate)
 	h := newHandler()
+	h.schemas = verifSchemas(sub)
 	r, err := (&runnableStep{workflow: sub, logger: vLogger{}}).Start(nil, "loop", h)
 	verifrt.Assert(err == nil, "Start succeeds")
 	at := verifrt.Choice("closeAt", 3)
